@@ -115,6 +115,11 @@ func ReadPublicKeyFromHex(Qhex string) (*sm2.PublicKey, error) {
 	pub.Curve = sm2.P256Sm2()
 	pub.X = new(big.Int).SetBytes(q[:32])
 	pub.Y = new(big.Int).SetBytes(q[32:])
+	// like ParseSm2PublicKey / ReadPublicKeyFromPem (elliptic.Unmarshal) and sm2.Decompress: only a point of
+	// the curve is a public key (IsOnCurve also refuses coordinates outside [0, p))
+	if !pub.Curve.IsOnCurve(pub.X, pub.Y) {
+		return nil, errors.New("publicKey is not a point of the SM2 curve.")
+	}
 	return pub, nil
 }
 
